@@ -48,6 +48,7 @@ type Solver struct {
 	axioms  []string // raw smt asserted at level 0 after UF decls (re-sent on restart)
 	axSent  int
 	log     io.Writer
+	starting bool
 }
 
 func NewSolver(ts *TermStore, bin string, timeoutMS int) (*Solver, error) {
@@ -58,10 +59,7 @@ func NewSolver(ts *TermStore, bin string, timeoutMS int) (*Solver, error) {
 	default:
 		s.args = []string{"-in", "-smt2"}
 	}
-	if err := s.start(); err != nil {
-		return nil, err
-	}
-	return s, nil
+	return s, nil // the process is started lazily on first use
 }
 
 func (s *Solver) start() error {
@@ -112,6 +110,13 @@ func (s *Solver) restart() {
 }
 
 func (s *Solver) send(line string) {
+	if s.cmd == nil && !s.starting {
+		s.starting = true
+		if err := s.start(); err != nil {
+			panic(abortf("cannot start solver %s: %v", s.bin, err))
+		}
+		s.starting = false
+	}
 	if s.log != nil {
 		fmt.Fprintln(s.log, line)
 	}
@@ -120,7 +125,18 @@ func (s *Solver) send(line string) {
 }
 
 // define makes sure t and all of its sub-terms are declared/defined in the solver.
+func (s *Solver) ensure() {
+	if s.cmd == nil && !s.starting {
+		s.starting = true
+		if err := s.start(); err != nil {
+			panic(abortf("cannot start solver %s: %v", s.bin, err))
+		}
+		s.starting = false
+	}
+}
+
 func (s *Solver) define(t *Term) {
+	s.ensure()
 	for len(s.sent) < len(s.ts.terms) {
 		s.sent = append(s.sent, false)
 	}
@@ -188,6 +204,9 @@ func (s *Solver) sync(pc []*Term) {
 }
 
 func (s *Solver) readLine() (string, error) {
+	if s.out == nil {
+		return "", fmt.Errorf("solver not running")
+	}
 	l, err := s.out.ReadString('\n')
 	return strings.TrimSpace(l), err
 }
@@ -199,6 +218,7 @@ func (s *Solver) Check(pc []*Term, extra *Term, want []*Term) (SatResult, map[*T
 		return Unsat, nil
 	}
 	start := time.Now()
+	s.ensure()
 	s.Stats.Queries++
 	s.sync(pc)
 	if extra != nil {
@@ -317,4 +337,133 @@ func (s *Solver) readValue() (uint64, error) {
 		return v, err
 	}
 	return 0, fmt.Errorf("cannot parse value: %q", txt)
+}
+
+// Script renders a standalone SMT-LIB2 script deciding pc ∧ extra (used for the second-opinion solvers).
+func (s *Solver) Script(pc []*Term, extra *Term, std bool) string {
+	var sb strings.Builder
+	sb.WriteString("(set-logic ALL)\n")
+	seen := map[int]bool{}
+	var order []*Term
+	var visit func(t *Term)
+	visit = func(t *Term) {
+		if seen[t.ID] {
+			return
+		}
+		seen[t.ID] = true
+		for _, a := range t.Args {
+			visit(a)
+		}
+		order = append(order, t)
+	}
+	roots := append([]*Term{}, pc...)
+	if extra != nil {
+		roots = append(roots, extra)
+	}
+	for _, r := range roots {
+		visit(r)
+	}
+	ufDone := map[string]bool{}
+	nfresh := 0
+	var post []string
+	for _, x := range order {
+		switch x.Op {
+		case OConst:
+		case OVar:
+			fmt.Fprintf(&sb, "(declare-const %s %s)\n", smtName(x.Name), x.S)
+		default:
+			if x.Op == OUF && !ufDone[x.Name] {
+				d := s.ts.ufs[x.Name]
+				var as []string
+				for _, a := range d.Args {
+					as = append(as, a.String())
+				}
+				fmt.Fprintf(&sb, "(declare-fun %s (%s) %s)\n", smtName(d.Name), strings.Join(as, " "), d.Ret)
+				ufDone[x.Name] = true
+			}
+			if std && x.Op == OFpToBV {
+				// standard SMT-LIB has no fp->bv bit cast: introduce a fresh bv constrained by to_fp
+				nfresh++
+				fmt.Fprintf(&sb, "(declare-const t%d %s)\n", x.ID, x.S)
+				post = append(post, fmt.Sprintf("(assert (= ((_ to_fp %s) t%d) %s))", fpDims(x.Args[0].S), x.ID, ref(x.Args[0])))
+				continue
+			}
+			fmt.Fprintf(&sb, "(define-fun t%d () %s %s)\n", x.ID, x.S, body(x))
+		}
+	}
+	for _, p := range post {
+		sb.WriteString(p + "\n")
+	}
+	for _, r := range roots {
+		fmt.Fprintf(&sb, "(assert %s)\n", ref(r))
+	}
+	sb.WriteString("(check-sat)\n")
+	return sb.String()
+}
+
+// SecondOpinion runs other solver binaries on a query the main solver could not decide.
+func (s *Solver) SecondOpinion(pc []*Term, extra *Term, timeoutS int) (SatResult, string) {
+	type alt struct {
+		name string
+		args []string
+		std  bool
+	}
+	alts := []alt{
+		{"cvc5", []string{"--lang=smt2", "--fp-exp", fmt.Sprintf("--tlimit=%d", timeoutS*1000)}, true},
+		{"z3-new", []string{"-in", "-smt2", fmt.Sprintf("-T:%d", timeoutS)}, false},
+		{"cvc5", []string{"--lang=smt2", "--solve-bv-as-int=sum", fmt.Sprintf("--tlimit=%d", timeoutS*1000)}, true},
+	}
+	type res struct {
+		r   SatResult
+		who string
+	}
+	ch := make(chan res, len(alts))
+	var cmds []*exec.Cmd
+	for _, a := range alts {
+		a := a
+		script := s.Script(pc, extra, a.std)
+		cmd := exec.Command(a.name, a.args...)
+		cmd.Stdin = strings.NewReader(script)
+		cmds = append(cmds, cmd)
+		go func() {
+			out, _ := cmd.Output()
+			txt := strings.TrimSpace(string(out))
+			first := txt
+			if i := strings.IndexByte(txt, '\n'); i >= 0 {
+				first = txt[:i]
+			}
+			if strings.Contains(txt, "(error") {
+				ch <- res{Unknown, a.name}
+				return
+			}
+			switch first {
+			case "unsat":
+				ch <- res{Unsat, strings.Join(append([]string{a.name}, a.args[:len(a.args)-1]...), " ")}
+			case "sat":
+				ch <- res{Sat, a.name}
+			default:
+				ch <- res{Unknown, a.name}
+			}
+		}()
+	}
+	got := res{Unknown, ""}
+	for range alts {
+		r := <-ch
+		if r.r == Unsat {
+			got = r
+			break
+		}
+		if r.r == Sat && got.r == Unknown {
+			got = r
+		}
+	}
+	for _, c := range cmds {
+		if c.Process != nil {
+			c.Process.Kill()
+		}
+	}
+	if got.r != Unknown {
+		return got.r, got.who
+	}
+	return Unknown, ""
 }
